@@ -220,6 +220,7 @@ def _gen_loop(ctx, srcs, names, body_text, fired):
     return '\n'.join(lines)
 
 def apply(body, fired):
+    body = _s6(body, fired)
     ctx = Ctx()
     changed = True
     guard = 0
@@ -375,6 +376,32 @@ def apply(body, fired):
                 break
     body = _r7(body, fired)
     return body
+
+_S6 = re.compile(r'for\s*\(\s*(\w+)\s*,\s*(\w+)\s*\)\s*in\s*\(\s*([^()]+?)\s*\.\.\s*\)\s*\.step_by\(\s*([^()]+?)\s*\)\s*\.zip\(\s*\(\s*([^()]+?)\s*\.\.\s*([^()]+?)\s*\)\s*\.step_by\(\s*([^()]+?)\s*\)\s*\)\s*\{')
+def _s6(body, fired):
+    """S6  for (P, Q) in (A..).step_by(S).zip((B..C).step_by(T)) { BODY }
+         -> { let mut P: usize = A; let mut Q: usize = B; while Q < C { BODY P += S; Q += T; } }
+    (the unbounded first range never ends the zip; bounds must not mention P or Q; BODY must not `continue`)"""
+    guard = 0
+    while True:
+        guard += 1
+        if guard > 50:
+            raise ExtractError('R4/S6 does not terminate')
+        m = _S6.search(body)
+        if not m:
+            return body
+        P, Q, A, S, B, C, T = m.groups()
+        # matching close brace of the loop body
+        toks = lex(body)
+        ob = next(ix for ix, t in enumerate(toks) if t.start == m.end() - 1)
+        cb = match_close(toks, ob)
+        inner = body[toks[ob].end:toks[cb].start]
+        if re.search(r'\bcontinue\b', inner) or re.search(r'\b(%s|%s)\b' % (P, Q), A + S + B + C + T):
+            raise ExtractError('R4/S6: unsupported loop body / bounds')
+        new = ('{ let mut %s: usize = %s; let mut %s: usize = %s; while %s < %s {' % (P, A, Q, B, Q, C)
+               + inner + ' %s += %s; %s += %s; } }' % (P, S, Q, T))
+        body = body[:m.start()] + new + body[toks[cb].end:]
+        fired.add('R4')
 
 def _r7(body, fired):
     """(x, y) = (e1, e2);  ->  x = e1; y = e2;      let (x, y): (T, U);  ->  let x: T; let y: U;"""
